@@ -27,35 +27,42 @@ DRIVER = "dm_reduce"
 LEAN_MODULES = ["DaskModel.Props.C22"]   # the kernel theorems of Lemmas/* are re-exported there (K1_*, K2_*)
 CASE_TIMEOUT_S = 20
 LEVEL_TEXT = (
-    "Proved in Lean 4 (no size bound): K1 treeReduce_eq_fold — for every block list, every group size k "
-    "(split_every) and every depth with n ≤ k^depth the combine/aggregate tree of _tree_reduce/partial_reduce "
-    "returns exactly one block equal to the flat aggregate whenever combine/aggregate are homomorphisms on "
-    "concatenation; hence split_every_irrelevant. Instances proved equal to the NumPy specification for every "
-    "blocking: sum, prod, any, all, mean as (total,n), min/max with dask's empty-chunk rule (min_eq_numpy, "
-    "max_eq_numpy), argmin/argmax returning the FIRST flat index of the extremum (argmin_eq_numpy_all, "
-    "argmax_eq_numpy_all: 1-d / raveled order, empty blocks included — the code after the arg_chunk fix), top-k (topk_eq_sort_take: the k largest / -k smallest of the whole "
-    "array); multi-axis reductions: gridReduce_eq_fold / sum_nd_eq_numpy / prod_nd_eq_numpy / any_nd / all_nd / mean_nd_eq_numpy / "
-    "min_nd_eq_numpy / max_nd_eq_numpy (min/max through gridReduce_mapGrid: the tree commutes with the embedding Option Int → 0/1-element partial, empty blocks included) — for a commutative monoid, "
-    "every grid of blocks, every per-axis split_every and every depth with n_i ≤ k_i^depth the n-d partial_reduce tree "
-    "returns one block with the fold of all data (product of per-axis partitions is a partition of the grid). K2: sequential cumreduction equals the global scan for every chunking "
-    "including zero-length blocks (seqScan_eq_scan); Blelloch: the interval checker is sound (blelloch_sound), dask's "
-    "schedule — both while-loops and the max(2, 2**ceil(log2(n//2))) start — is accepted for EVERY n_vals "
-    "(schedOk_all / blelloch_schedule_ok: invariants over powers of two), hence cumsum/cumprod(method='blelloch') = "
-    "NumPy for every chunking and any number of blocks (cumsum_blelloch_eq_numpy, any monoid). Validated, not proved: float summation order (tolerance), var/std/moment (Chan "
-    "merge), nan-variants, argtopk (indices checked against the values), median/quantile glue, n-d arg-reductions over several axes (the n-d plan is diffed against the real "
-    "graph and executed by the driver on integer data)."
+    "Proved in Lean 4 (no size bound). K1 treeReduce_eq_fold — for every block list, every group size k (split_every) and "
+    "every depth with n ≤ k^depth the combine/aggregate tree of _tree_reduce/partial_reduce returns exactly one block equal "
+    "to the flat aggregate whenever combine/aggregate are homomorphisms on concatenation; hence split_every_irrelevant. The "
+    "depth loop of _tree_reduce is inside the model (treeDepth: running maximum over the reduced axes of the exact "
+    "ceil(log_k n)): axesOk_treeDepth (it satisfies n_i ≤ k_i^depth on every reduced axis, group sizes ≥ 2), treeDepth_least, "
+    "and the tree theorems restated with dask's own depth or any larger one and no depth hypothesis (tree_dask_depth, "
+    "sum_nd_dask_depth, nd_tree_dask_depth); treeDepthLast_refuted: a depth taken from the last reduced axis only ends in two "
+    "aggregate tasks on one output key (4 instead of 12 on a 6×2 grid). Instances proved equal to the NumPy specification for "
+    "every blocking: sum, prod, any, all, mean as (total,n), min/max with dask's empty-chunk rule, argmin/argmax returning the "
+    "FIRST flat index of the extremum (argmin_eq_numpy_all / argmax_eq_numpy_all: 1-d / raveled order, empty blocks included), "
+    "top-k (topk_eq_sort_take), var/std/moment(order 2) over exact rationals (var_eq_numpy: the k-way Chan–Pébay merge of "
+    "moment_combine = NumPy's two-pass Σ(x-mean)²/(n-ddof), empty blocks included, undefined iff n ≤ ddof; nanvar_eq_numpy; "
+    "var_chunking_irrelevant). Several axes at once: gridReduce_eq_fold and sum/prod/any/all/mean/min/max_nd_eq_numpy (any "
+    "commutative monoid, every grid of blocks, per-axis split_every; min/max through gridReduce_mapGrid). K2: sequential "
+    "cumreduction equals the global scan for every chunking including zero-length blocks (seqScan_eq_scan); Blelloch: the "
+    "interval checker is sound (blelloch_sound) and dask's schedule is accepted for EVERY n_vals (blelloch_schedule_ok), hence "
+    "cumsum/cumprod(method='blelloch') = NumPy for every chunking (cumsum_blelloch_eq_numpy, any monoid). VALIDATED, not "
+    "proved: float summation order (tolerance), moments of order ≥ 3, var/std over several axes at once, nan-variants other "
+    "than nanvar, argtopk (indices checked against the values), median/quantile/percentile glue (rechunk to one block + NumPy), "
+    "arg-reductions over several axes, dtype rules, and that a reduction leaves the blocks it reads untouched (section "
+    "'shared': sequences / persisted / joint computes / x - f(x, keepdims=True) after median, quantile, percentile, topk …)."
 )
 LEVEL_NOTE = (
-    "Trusted: Lean kernel + standard axioms; NumPy kernels on one block (np.sum, np.min, np.argmin, np.partition, "
-    "np.cumsum …) and NumPy as the reference; the harness replicates dask's split_every normalisation "
-    "(max(int(k**(1/naxes)),2)) to drive the model; the depth float formula is a validated hypothesis (n ≤ k^depth)."
+    "Trusted: Lean kernel + standard axioms; NumPy kernels on one block (np.sum, np.min, np.argmin, np.partition, np.cumsum, "
+    "np.median …) and NumPy as the reference; np.sqrt for std. The harness replicates dask's split_every normalisation "
+    "(max(int(k**(1/naxes)),2)) to drive the model. The float math.ceil(math.log(n, k)) is compared with the exact treeDepth "
+    "on every generated case and on all boundary n ≤ 4096: equal or one larger (a larger depth is covered by the theorems: "
+    "axesOk_mono), never smaller."
 )
-TECHNIQUE = "Lean 4 proof (structural induction over the reduction tree / scan schedule) + differential correspondence (graph structure and values) against dask and NumPy"
+TECHNIQUE = "Lean 4 proof (structural induction over the reduction tree / scan schedule; field arithmetic over ℚ for the moment merge) + differential correspondence (graph structure, per-function and end-to-end values) against dask and NumPy"
 ASSUMPTIONS = [
     "a block is represented by its raveled element list; axes that are not reduced are pointwise (sliced away by the harness)",
     "np.partition/np.argpartition results are compared as multisets (top-k partial results are kept sorted in the model)",
-    "depth computed by dask (math.ceil(math.log(n, k))) satisfies n ≤ k^depth — checked on every generated case and on all boundary n ≤ 4096",
+    "depth computed by dask (math.ceil(math.log(n, k)), float) is treeDepth or treeDepth + 1 — checked on every generated case and on all boundary n ≤ 4096",
     "2 ** math.ceil(math.log2(n_vals // 2)) (float) equals the exact smallest power of two ≥ n_vals // 2 used by the model — the real schedule is diffed against the model for every n ≤ 40 (quick) / 300 (thorough)",
+    "var/std theorems are over exact rationals; the float evaluation of the same formulas is compared within tolerance",
 ]
 TRUSTED = ["NumPy per-block kernels and NumPy as oracle", "harness replica of split_every normalisation"]
 
@@ -168,6 +175,10 @@ def check_plan(ctx, what, res, numblocks, axes, keepdims, split_every):
     # formula may overshoot by one at exact powers — never undershoot
     if all(k >= 2 for k in split.values()):
         md, md_last = ctx.lean(Sym("treedepth"), sp, list(numblocks))
+        # the float formula itself (what the loop evaluates): the real tree must have exactly that many levels
+        fl = max([1] + [math.ceil(math.log(numblocks[i], split[i])) for i in split if split[i] != 1])
+        if depth != fl:
+            ctx.fail(f"the tree has {depth} levels, the depth loop max(1, ceil(log(n_i, k_i))) gives {fl}", observed=depth, expected=fl)
         if depth not in (md, md + 1):
             ctx.fail(f"{what}: depth {depth} of the real tree is not the depth of the _tree_reduce loop ({md}, or one more "
                      "through float rounding)", observed=depth, expected=md)
